@@ -16,7 +16,7 @@ import h5py
 
 from .hdf5.h5group import H5Group
 from .block import Block
-from .section import Section
+from .section import Section, copy_section_to
 from .container import Container, SectionContainer
 from . import util
 from .exceptions import InvalidFile, DuplicateName
@@ -343,30 +343,7 @@ class File:
         :returns: The copied section
         :rtype: nixio.Section
         """
-        if not isinstance(obj, Section):
-            raise TypeError("Object to be copied is not a Section")
-
-        if obj._sec_parent:
-            src = "{}/{}".format("sections", obj.name)
-        else:
-            src = "{}/{}".format("metadata", obj.name)
-        clsname = "metadata"
-        if not name:
-            name = str(obj.name)
-        sec = self._h5group.open_group("sections", True)
-        if name in sec:
-            raise NameError("Name already exist. Possible solution is to "
-                            "provide a new name when copying destination "
-                            "is the same as the source parent")
-        obj._parent._h5group.copy(source=src, dest=self._h5group,
-                                  name=name, cls=clsname,
-                                  shallow=not children, keep_id=keep_id)
-
-        if not children:
-            for prop in obj.props:
-                self.sections[obj.name].create_property(copy_from=prop, keep_copy_id=keep_id)
-
-        return self.sections[obj.name]
+        return copy_section_to(obj, self, "metadata", children, keep_id, name)
 
     def flush(self):
         self._h5file.flush()
